@@ -6,16 +6,12 @@ Open Scope N_scope.
 
 Theorem C04_checkout : forall r enum roots names,
   wf_b r = true -> contract r (walked roots) enum -> small r ->
-  match scan r enum roots names with
-  | SOk evs =>
+  exists evs, scan r enum roots names = SOk evs /\
       let h := history_of evs in
       let c := spec_census r (walked roots) in
       h_xdepth h = sat32 (x_depth c) /\ h_xlen h = sat32 (x_len c) /\ h_xtrees h = sat32 (x_trees c) /\
       h_xblobs h = sat32 (x_blobs c) /\ h_xbsize h = sat64 (x_bsize c) /\ h_xlinks h = sat32 (x_links c) /\
-      h_xsubs h = sat32 (x_subs c)
-  | SPanic m => m = P_FUEL
-  | SErr _ => False
-  end.
+      h_xsubs h = sat32 (x_subs c).
 Proof. exact checkout_exact. Qed.
 Print Assumptions C04_checkout.
 
